@@ -698,7 +698,7 @@ def stepwise(chk):
                 return [("value", res)]
             return None
 
-        it = Interp(prog, run, call_hook=hook, unroll=1)
+        it = Interp(prog, run, call_hook=hook, unroll=1, inline=lambda f, ct: f.cls is run.cls and not f.is_async and f.name != "run")
         pre = it.exec_block(run.node.body[:idx], Path())
         if len(pre) != 1:
             chk.undecided(rule, name, "prologue branches", node=run.node)
@@ -713,6 +713,16 @@ def stepwise(chk):
                 continue
             ct = rules[0][1]
             sel = ct[1]
+            # lookup, application and write are one step: no checkpoint (await) between reading the supply and acting on
+            # it, else the rule of an EARLIER supply acts on the pool
+            evs_ = o.path.events
+            i_look = next((i for i, e in enumerate(evs_) if e[0] == "call" and e[1][1][0] == "attr" and e[1][1][2] == "get_rule"), None)
+            i_apply = evs_.index(rules[0])
+            i_store = max([i for i, e in enumerate(evs_) if e[0] in ("store", "aug") and e[1] == TDEM] or [i_apply])
+            waits = [i for i, e in enumerate(evs_) if i_look is not None and i_look < i < i_store and ((e[0] == "call" and e[3]) or e[0] == "await")]
+            if waits and ok:
+                chk.bad(rule, name, "the step waits (%s) between looking the rule up by the current supply and applying it: the rule that acts was chosen for the supply of an earlier moment, not for the greatest threshold not above the CURRENT supply" % show(strip_sites(evs_[waits[0]][1])), node=loop, stmt="wait-between-lookup-and-act", input=kind)
+                ok = False
             if not (sel[1][0] == "attr" and sel[1][2] == "get_rule" and list(sel[2]) == [SUPPLY]):
                 chk.bad(rule, name, "the rule is looked up by %s instead of the target's current supply" % [show(a) for a in sel[2]], node=loop, stmt="lookup-key", input=kind)
                 ok = False
@@ -789,6 +799,24 @@ def switch(chk):
             regs0 = [e for e in o.path.events if e[0] == "call" and e[1][1][0] == "attr" and e[1][1][2] == "regulate" and e[1][1][1] != SELF]
             if len(regs0) == 1:
                 ch = strip_sites(regs0[0][1][1][1])
+                # `if matching := [slave for thr, slave in slaves if thr <= demand]: *_, chosen = matching` else default
+                def matching_comp(c):
+                    if not (c[0] == "comp" and c[1] == "list" and len(c[3]) == 1):
+                        return False
+                    tgt, src, conds = c[3][0]
+                    return tgt[0] == "tuple" and len(tgt[1]) == 2 and c[2] == tgt[1][1] and src == SLAVES_ATTR and list(conds) == [("cmp", "<=", tgt[1][0], TDEM)]
+
+                comps = {strip_sites(e[1]) for e in o.path.events if e[0] in ("branch", "fork") and matching_comp(strip_sites(e[1]))}
+                if len(comps) == 1 and list(regs0[0][1][2]) == [INTERVAL]:
+                    comp = next(iter(comps))
+                    nonempty = [e[2] for e in o.path.events if e[0] in ("branch", "fork") and strip_sites(e[1]) == comp][-1]
+                    chk.count()
+                    if (nonempty and ch == ("sub", comp, ("const", -1))) or (not nonempty and ch == DEFAULT):
+                        n_checked += 2
+                        continue
+                    chk.bad(rule, name, "with %s matching thresholds the step is delegated to %s: not the slave with the greatest threshold <= demand, else the default" % ("some" if nonempty else "no", show(ch)), node=fi.node, stmt="selection-last-of-matching")
+                    ok = False
+                    continue
                 # last element of  [default] + matching   /   [default, *matching]
                 seq = ch[1] if ch[0] == "sub" and ch[2] == ("const", -1) else None
                 parts = None
@@ -863,49 +891,51 @@ def switch(chk):
         chk.ok(rule, name, "last match wins with guard threshold <= demand; exactly one regulate(interval) on the chosen controller, default when nothing matches", node=fi.node, input="%d paths (0..2 slaves x match/no-match)" % n_checked)
     # constructor: sorted slaves, re-targeting, pairing validation
     init = prog.method(SWITCH, "__init__")
-    src = ast.unparse(init.node)
+    # (validation and re-targeting may live in private helpers called in this order: read them in place)
+    init_node = util.flatten_helpers(prog, init)
+    src = ast.unparse(init_node)
     chk.count(3)
     ok2 = True
     try:
         table_attr = slots.attr_from_expr(prog, prog.cls(SWITCH), lambda v, t: "slaves" in t, "slave table")
-        slaves_assign = [n for n in ast.walk(init.node) if isinstance(n, ast.Assign) and any(isinstance(t, ast.Attribute) and t.attr == table_attr for t in n.targets)]
+        slaves_assign = [n for n in ast.walk(init_node) if isinstance(n, ast.Assign) and any(isinstance(t, ast.Attribute) and t.attr == table_attr for t in n.targets)]
     except Undecided:
         # the sorted pairs are kept in a local and split into parallel attributes: the local's assignment is what sorts
-        slaves_assign = [n for n in ast.walk(init.node) if isinstance(n, ast.Assign) and "slaves" in ast.unparse(n.value) and any(isinstance(t, ast.Name) for t in n.targets)]
+        slaves_assign = [n for n in ast.walk(init_node) if isinstance(n, ast.Assign) and "slaves" in ast.unparse(n.value) and any(isinstance(t, ast.Name) for t in n.targets)]
         used = {t.id for n in slaves_assign for t in n.targets if isinstance(t, ast.Name)}
-        kept = [n for n in ast.walk(init.node) if isinstance(n, ast.Assign) and any(isinstance(t, ast.Attribute) for t in n.targets) and any(isinstance(x, ast.Name) and x.id in used for x in ast.walk(n.value))]
+        kept = [n for n in ast.walk(init_node) if isinstance(n, ast.Assign) and any(isinstance(t, ast.Attribute) for t in n.targets) and any(isinstance(x, ast.Name) and x.id in used for x in ast.walk(n.value))]
         if not slaves_assign or len(kept) < 2:
             raise
     asc_ok, _n = ascending_sort(chk, rule, init, "the slaves")
     if not asc_ok:
         ok2 = False
     elif not slaves_assign or "sorted(" not in ast.unparse(slaves_assign[0].value):
-        chk.bad(rule, init.qual, "the slaves are not sorted by threshold: 'last match wins' then depends on declaration order", node=slaves_assign[0] if slaves_assign else init.node, stmt="slaves-unsorted")
+        chk.bad(rule, init.qual, "the slaves are not sorted by threshold: 'last match wins' then depends on declaration order", node=slaves_assign[0] if slaves_assign else init_node, stmt="slaves-unsorted")
         ok2 = False
-    retarget = [n for n in ast.walk(init.node) if isinstance(n, ast.Assign) and any(isinstance(t, ast.Attribute) and t.attr == "target" and not (isinstance(t.value, ast.Name) and t.value.id == "self") for t in n.targets)]
+    retarget = [n for n in ast.walk(init_node) if isinstance(n, ast.Assign) and any(isinstance(t, ast.Attribute) and t.attr == "target" and not (isinstance(t.value, ast.Name) and t.value.id == "self") for t in n.targets)]
     names = {ast.unparse(t.value) for n in retarget for t in n.targets if isinstance(t, ast.Attribute)}
     vals = {ast.unparse(n.value) for n in retarget}
-    if "default" not in names or not any(isinstance(n, ast.For) and any(r in ast.walk(n) for r in retarget) for n in ast.walk(init.node)):
-        chk.bad(rule, init.qual, "not every slave (and the default) is re-targeted to the switch's own target (re-targeted: %s)" % sorted(names), node=init.node, stmt="retarget")
+    if "default" not in names or not any(isinstance(n, ast.For) and any(r in ast.walk(n) for r in retarget) for n in ast.walk(init_node)):
+        chk.bad(rule, init.qual, "not every slave (and the default) is re-targeted to the switch's own target (re-targeted: %s)" % sorted(names), node=init_node, stmt="retarget")
         ok2 = False
     if vals - {"target"}:
-        chk.bad(rule, init.qual, "controllers are re-targeted to %s instead of the switch's target" % sorted(vals), node=init.node, stmt="retarget-value")
+        chk.bad(rule, init.qual, "controllers are re-targeted to %s instead of the switch's target" % sorted(vals), node=init_node, stmt="retarget-value")
         ok2 = False
-    body = init.node.body
+    body = init_node.body
     val_idx = [i for i, st in enumerate(body) if isinstance(st, ast.Expr) and isinstance(st.value, ast.Call) and util.dotted(st.value.func) in ("enforce", "utility.enforce") and ".target" in util.unparse(st.value.args[0] if st.value.args else st.value)]
     ret_idx = [i for i, st in enumerate(body) if any(r in list(ast.walk(st)) for r in retarget)]
     asserts = [i for i, st in enumerate(body) if isinstance(st, ast.Assert) and ".target" in util.unparse(st.test)]
     val_idx += asserts
     if not val_idx:
-        chk.bad(rule, init.qual, "the constructor does not validate that the controllers are unbound or already bound to the switch's target", node=init.node, stmt="no-target-validation")
+        chk.bad(rule, init.qual, "the constructor does not validate that the controllers are unbound or already bound to the switch's target", node=init_node, stmt="no-target-validation")
         ok2 = False
     elif ret_idx and min(ret_idx) < min(val_idx):
         chk.bad(rule, init.qual, "the controllers are re-targeted BEFORE their targets are validated: the validation can never fail, a controller that is bound to another pool (or switch) is silently taken over and the other switch then regulates the wrong pool", node=body[min(ret_idx)], stmt="retarget-before-validation")
         ok2 = False
     if "% 2" not in src:
-        chk.undecided(rule, init.qual, "pairing validation not recognised", node=init.node, aux=True)
+        chk.undecided(rule, init.qual, "pairing validation not recognised", node=init_node, aux=True)
     if ok2:
-        chk.ok(rule, init.qual, "slaves sorted by threshold; default and every slave re-targeted to the switch's target", node=init.node)
+        chk.ok(rule, init.qual, "slaves sorted by threshold; default and every slave re-targeted to the switch's target", node=init_node)
 
 
 def run(chk):
